@@ -452,15 +452,25 @@ func moreIntrinsics() map[string]intrinsic {
 		},
 
 		// os / files: behaviour delegated to harness providers
+		// the flag and log packages as the astisub command uses them: flags are cells the harness primitive vcliRun
+		// fills, parsing is a no-op, log.Fatal ends the command
+		"flag.Duration": func(e *Exec, a []Value) (Value, bool) { return e.flagCell(a[0], a[1]), true },
+		"flag.Int":      func(e *Exec, a []Value) (Value, bool) { return e.flagCell(a[0], a[1]), true },
+		"flag.String":   func(e *Exec, a []Value) (Value, bool) { return e.flagCell(a[0], a[1]), true },
+		"flag.Var":      func(e *Exec, a []Value) (Value, bool) { return nil, true },
+		"flag.Parse":    func(e *Exec, a []Value) (Value, bool) { return nil, true },
+		"github.com/asticode/go-astikit.FlagCmd": func(e *Exec, a []Value) (Value, bool) { return cs(e.cliCmd), true },
+		"log.Fatal":  func(e *Exec, a []Value) (Value, bool) { panic(cliFatal{}) },
+		"log.Fatalf": func(e *Exec, a []Value) (Value, bool) { panic(cliFatal{}) },
 		"os.Open": func(e *Exec, a []Value) (Value, bool) {
 			if r, ok := e.harnessStub("vstubOpen", a); ok {
-				return e.fileResult(r), true
+				return e.fileResultNamed(r, a[0]), true
 			}
 			panic(unsupported("os.Open without harness provider vstubOpen"))
 		},
 		"os.Create": func(e *Exec, a []Value) (Value, bool) {
 			if r, ok := e.harnessStub("vstubCreate", a); ok {
-				return e.fileResult(r), true
+				return e.fileResultNamed(r, a[0]), true
 			}
 			panic(unsupported("os.Create without harness provider vstubCreate"))
 		},
@@ -471,12 +481,22 @@ func moreIntrinsics() map[string]intrinsic {
 			return nilErr(), true
 		},
 		"(*os.File).Read": func(e *Exec, a []Value) (Value, bool) {
+			if name, ok := fileName(a[0]); ok {
+				if r, ok := e.harnessStub("vstubFileReadNamed", []Value{name, a[1]}); ok {
+					return r, true
+				}
+			}
 			if r, ok := e.harnessStub("vstubFileRead", a[1:]); ok {
 				return r, true
 			}
 			panic(unsupported("(*os.File).Read without provider"))
 		},
 		"(*os.File).Write": func(e *Exec, a []Value) (Value, bool) {
+			if name, ok := fileName(a[0]); ok {
+				if r, ok := e.harnessStub("vstubFileWriteNamed", []Value{name, a[1]}); ok {
+					return r, true
+				}
+			}
 			if r, ok := e.harnessStub("vstubFileWrite", a[1:]); ok {
 				return r, true
 			}
@@ -557,6 +577,101 @@ func (e *Exec) fileResult(r Value) Value {
 	cell := new(Value)
 	*cell = &Native{Kind: "file"}
 	return Tuple{cell, nilErr()}
+}
+
+func (e *Exec) fileResultNamed(r Value, name Value) Value {
+	t := e.fileResult(r).(Tuple)
+	if cell, ok := t[0].(*Value); ok && cell != nil {
+		(*cell).(*Native).V = name
+	}
+	return t
+}
+
+func fileName(f Value) (Value, bool) {
+	cell, ok := f.(*Value)
+	if !ok || cell == nil {
+		return nil, false
+	}
+	n, ok := (*cell).(*Native)
+	if !ok || n.Kind != "file" || n.V == nil {
+		return nil, false
+	}
+	s, ok := n.V.(Str)
+	return s, ok
+}
+
+type cliFatal struct{}
+
+func (e *Exec) flagCell(name, def Value) Value {
+	cell := new(Value)
+	*cell = def
+	if e.flagCells == nil {
+		e.flagCells = map[string]*Value{}
+	}
+	e.flagCells[name.(Str).Conc()] = cell
+	return cell
+}
+
+// primCLIRun runs the astisub command's main function from SSA: vcliRun(cmd, inputs, output, page, durs) where durs
+// are the values of -a1 -a2 -d1 -d2 -f -s in nanoseconds. Returns whether the command ended in log.Fatal.
+func primCLIRun(e *Exec, a []Value) Value {
+	cli := e.P.CLI
+	if cli == nil {
+		panic(unsupported("the astisub command package is not present"))
+	}
+	e.flagCells = map[string]*Value{}
+	e.cliCmd = a[0].(Str).Conc()
+	// the command's package initialiser registers the flags (a fresh one per call: every run is a fresh process)
+	for g := range e.globals {
+		if g.Pkg == cli {
+			delete(e.globals, g)
+		}
+	}
+	e.callFn(cli.Func("init"), nil, nil, nil)
+	set := func(name string, v Value) {
+		c := e.flagCells[name]
+		if c == nil {
+			panic(unsupported("astisub command: flag -" + name + " is not registered"))
+		}
+		*c = v
+	}
+	set("o", a[2])
+	set("p", a[3])
+	durs := a[4].(Slice)
+	for i, n := range []string{"a1", "a2", "d1", "d2", "f", "s"} {
+		if i < durs.N {
+			set(n, durs.B[i])
+		}
+	}
+	ip := e.global(cli.Var("inputPath"))
+	st, ok := (*ip).(Struct)
+	if !ok || len(st) != 2 {
+		panic(unsupported("astisub command: inputPath is not an astikit.FlagStrings"))
+	}
+	sp, ok := st[1].(*Value)
+	if !ok || sp == nil {
+		panic(unsupported("astisub command: inputPath.Slice is nil"))
+	}
+	in := a[1].(Slice)
+	paths := make([]Value, in.N)
+	copy(paths, in.B[:in.N])
+	*sp = Slice{B: paths, N: len(paths)}
+	fatal := false
+	func() {
+		depth, stack := e.depth, len(e.stack)
+		defer func() {
+			if r := recover(); r != nil {
+				if _, ok := r.(cliFatal); ok {
+					fatal = true
+					e.depth, e.stack = depth, e.stack[:stack]
+					return
+				}
+				panic(r)
+			}
+		}()
+		e.callFn(cli.Func("main"), nil, nil, nil)
+	}()
+	return Bool{C: fatal}
 }
 
 func (e *Exec) nativeMethod(n *Native, name string, args []Value) Value {
